@@ -165,8 +165,10 @@ impl YamlConverter {
 
     pub fn write(&self, v: &Val, mut w: &mut dyn Write) -> ConvertResult {
         let jsn_val = self.convert_value(v)?;
+        // serde_yaml ends the document with a newline itself. Anything written
+        // after it becomes part of a trailing block scalar ("a\n\n" is emitted
+        // as `|+` and would gain a line).
         serde_yaml::to_writer(&mut w, &jsn_val)?;
-        writeln!(w)?;
         Ok(())
     }
 }
